@@ -279,11 +279,16 @@ func (m *monRoll) TaskEnd(s *Sim, t *Task) {
 				s.Violate("C09", "spacing", "", "%s acted on pods %v after its previous acting sync (reconcileFrequency %v)", t.Label(), gap, edsFreq(v.EDS))
 			}
 		}
-		okWrite := false
+		// "as long as its status writes succeed": a sync whose status write failed does not count;
+		// one that issued none at all does (nothing failed)
+		okWrite := true
 		for _, c := range v.StatusWrites {
-			if c.Kind == KERS && c.Applied() {
-				okWrite = true
+			if c.Kind == KERS && !c.Applied() {
+				okWrite = false
 			}
+		}
+		if t.Crashed || t.Panic != nil {
+			okWrite = false
 		}
 		if okWrite {
 			m.lastOps[key] = t.StartAt
